@@ -128,6 +128,8 @@ func main() {
 		mapOrder   = flag.String("maporder", "insertion", "insertion | symbolic")
 		trace      = flag.Bool("trace", false, "trace SSA instructions")
 		list       = flag.Bool("list", false, "list harness functions and exit")
+		cross      = flag.String("cross", "", "second solver (z3|z3new|cvc5): re-discharge solver-decided obligations one-shot")
+		crossMax   = flag.Int("crossmax", 300, "at most this many cross-checked obligations")
 		params     multiFlag
 		stubs      multiFlag
 	)
@@ -179,7 +181,7 @@ func main() {
 	}
 	cfg := Config{MaxSteps: *maxSteps, MaxDepth: *maxDepth, Trace: *trace, MapOrder: *mapOrder, Solver: *solver,
 		TimeoutMs: *timeoutMs, Workers: *workers, MaxPaths: *maxPaths, MaxViol: *maxViol, ResetEvery: *resetEvery,
-		Params: map[string]int64{}, Known: map[string]bool{}}
+		Params: map[string]int64{}, Known: map[string]bool{}, CrossSolver: *cross, CrossMax: *crossMax}
 	for _, kv := range params {
 		i := strings.IndexByte(kv, '=')
 		if i < 0 {
